@@ -66,6 +66,16 @@ impl DiffFlagDefs {
             _ => return Err(invalid_definition()),
         };
 
+        // a name refers to one flag only; otherwise labels printed with it would not parse back to the same mask
+        if let Some(&old_index) = self.by_name.get(&name) {
+            if old_index != index.value as FlagIndex {
+                return Err(error!(
+                    message("difficulty flag name {:?} is already used for flag {}", name, old_index),
+                    primary(str, "name already in use"),
+                ));
+            }
+        }
+
         self.define_flag(name, index.value as _, enable);
         Ok(())
     }
